@@ -24,7 +24,7 @@ package zkdec
 //@ func (*Proof).Verify
 //@   use bits
 //@   nopanic[C10]
-//@   modifies hstate(hash)
+//@   modifies hstate(hash), wlog(hash.h)
 //@   requires hash != nil && hash.h != nil && true && public.X != nil && pkok(public.Prover) && pkvals(public.Prover) && pkbig(public.Prover) && pedok(public.Aux) && (p != nil ==> shaped(p))
 
 //@ func challenge
